@@ -9,7 +9,7 @@ use sophia_api::{prelude::QuadParser, quad::Spog};
 use sophia_iri::Iri;
 
 use crate::{
-    JsonLdOptions,
+    JsonLdError, JsonLdOptions,
     loader::NoLoader,
     loader_factory::{DefaultLoaderFactory, LoaderFactory},
     vocabulary::{ArcIri, ArcVoc},
@@ -108,6 +108,10 @@ impl<LF> JsonLdParser<LF> {
             .base()
             .unwrap_or(Iri::new_unchecked_const("x-string://"))
             .map_unchecked(Arc::from);
+        if iref::Iri::new(base.as_str()).is_err() {
+            // the JSON-LD processor would panic when converting this IRI
+            return JsonLdQuadSource::from_err(JsonLdError::UnsupportedBase(base.to_string()));
+        }
         let json_res = Value::parse_str(txt, |span| Location::new(base.clone(), span));
         let json = match json_res {
             Ok(json) => json,
